@@ -188,7 +188,7 @@ def runKeys (rest : List String) : Option String := do
     match v with
     | .list _ xs =>
       let cfg : Cfg := ⟨Flags.init, false, ck, .many [], .many [], tr⟩
-      match keysOf cfg p xs with
+      match keysOf cfg p 0 xs with
       | .ok ks => pure ("ok " ++ encStrs ks)
       | .error e => pure (showErr e)
     | _ => none
